@@ -36,6 +36,7 @@ def run(ctx):
     unknown(ctx, c)
     pdr_verdicts(ctx)
     error_text(ctx)
+    balanced_before_read(ctx)
     aborts(ctx)
 
 
@@ -420,6 +421,43 @@ def pdr_verdicts(ctx):
                     n_err += 1
                     ctx.inst("R15.4", "%s:Unknown-test#%d" % (p.split("::")[-1], n_err), is_err, n["sp"], "%s: an Unknown answer must be turned into an error" % p)
     ctx.floor("R15.4", "Unknown -> Err sites in pdr", n_err, 3)
+
+
+def balanced_before_read(ctx):
+    """R15.7: a reply is interpreted only once it is complete: whether the balancing loop of read_response goes on may depend on the parenthesis
+    count and on the byte count of the last read, never on what the text says so far (a multi-line `(error ..)` would be cut after its first line
+    and the rest would be taken for the answer to the next command)"""
+    ctx.rule("R15.7", "the loop of read_response that reads until the parentheses balance is controlled only by count_parens / the byte count of read_line, not by the content of the partial reply")
+    f = ctx.fn("patronus", CTXT + "read_response")
+    ix = Index(f["body"])
+    TEXT_TESTS = ("starts_with", "ends_with", "contains", "strip_prefix", "strip_suffix", "find", "rfind", "eq", "eq_ignore_ascii_case", "matches")
+    n = 0
+    for lp in [x for x in ix.nodes if x.get("k") in ("while", "loop")]:
+        if not any(y.get("k") == "call" and (callee(y) or "").endswith("count_parens") for y in walk(lp.get("cond", lp["body"]) if lp["k"] == "while" else lp["body"])):
+            continue
+        conds = [lp["cond"]] if lp["k"] == "while" else []
+        for y in walk(lp["body"]):
+            if y.get("k") == "if" and any(z.get("k") == "break" for z in walk(y["then"])) and ix.enclosing(y, ("while", "loop", "for")) is lp:
+                conds.append(y["cond"])
+        n += 1
+        bad = []
+        for c0 in conds:
+            seen, work = set(), [c0]
+            while work:
+                e = work.pop()
+                for z in walk(e):
+                    if z.get("k") == "local" and z["id"] not in seen and z["id"] in LET_INITS:
+                        seen.add(z["id"])
+                        work.append(LET_INITS[z["id"]])
+                    if z.get("k") == "mcall" and z["name"] in TEXT_TESTS:
+                        b_, _ = chain(z["recv"])
+                        fp = field_path(b_)
+                        if fp and fp[0] == "self" and fp[2] == ["response"]:
+                            bad.append(z)
+        ctx.inst("R15.7", "read_response:balancing-loop#%d" % n, not bad, lp["sp"],
+                 "the loop that completes the reply is also controlled by `%s`, a test of what the partial reply says: a reply that spans several lines is cut short and its remainder is left in the pipe for the next command" % (show(bad[0])[:80] if bad else ""),
+                 sample={"conditions": [show(c_)[:80] for c_ in conds]})
+    ctx.floor("R15.7", "balancing loops in read_response", n, 1)
 
 
 def error_text(ctx):
